@@ -230,6 +230,7 @@ func streamParse(r *rand.Rand, text []byte, capacity int, stall int, dribble int
 	}()
 	watchdog := time.After(120 * time.Second)
 	producerDone := false
+	longStallAt := r.Intn(4)
 	for {
 		if l := len(ch); l > res.maxLen {
 			res.maxLen = l
@@ -246,6 +247,11 @@ func streamParse(r *rand.Rand, text []byte, capacity int, stall int, dribble int
 		case 3:
 			if len(res.recs)%7 == 3 {
 				time.Sleep(time.Duration(r.Intn(3)) * time.Millisecond)
+			}
+		case 4: // one long stall (0.6..1.2 s) while records are waiting: the parser has to wait as long as it takes
+			if len(res.recs) == longStallAt {
+				time.Sleep(time.Duration(600+r.Intn(600)) * time.Millisecond)
+				longStallAt = -1
 			}
 		}
 		if producerDone {
@@ -453,6 +459,10 @@ func runC13(w *mon.W) {
 		}
 		capacity := caps[k%len(caps)]
 		stall := r.Intn(4)
+		if k%20 == 19 {
+			stall = 4
+			w.Add("streaming_runs_with_a_long_consumer_stall", 1)
+		}
 		dribble := []int{0, 1, 7, 100, 5000}[r.Intn(5)]
 		if len(text) > 200000 && dribble > 0 && dribble < 100 {
 			dribble = 5000
